@@ -34,3 +34,5 @@ Definition C11_user_bit_raises_mss := @StbUser.user_bit_raises_mss.
 
 Definition C11_tie_lib_bits := @StbUser.tie_lib_bits.
 
+Definition C11_errcount_agrees_with_stb := @CmdLayer.errcount_agrees_with_stb.
+
